@@ -82,7 +82,25 @@ pub fn gen(emit: &mut dyn FnMut(OnceCase)) {
             if kind == 0 && len > 0 {
                 continue;
             }
-            let data: Vec<u8> = (0..len).map(|i| b'a' + ((i * 7 + i / 26) % 26) as u8).collect();
+            // text kinds: valid UTF-8 with blanks at both ends, a line break and multi-byte characters;
+            // byte kinds: every byte value including NUL and 0xff
+            let data: Vec<u8> = if kind == 2 || kind == 4 {
+                let alphabet = [" ", "a", "\u{e9}", "\n", "Z", "\u{4e16}", "\t", "0"];
+                let mut s = String::new();
+                let mut i = 0usize;
+                while s.len() < len {
+                    let piece = alphabet[(i * 5 + i / 8) % alphabet.len()];
+                    if s.len() + piece.len() > len {
+                        s.push_str(if len - s.len() >= 1 { " " } else { "" });
+                    } else {
+                        s.push_str(piece);
+                    }
+                    i += 1;
+                }
+                s.into_bytes()
+            } else {
+                (0..len).map(|i| ((i * 37 + i / 256) % 256) as u8).collect()
+            };
             for polls in [1u32, 2, 5] {
                 emit(OnceCase { kind, data: data.clone(), polls, class: format!("O:kind={} len={} polls={}", kind, len, polls) });
             }
